@@ -375,8 +375,8 @@ func init() {
 			nPre := 8
 			if c.Thorough || len(payload) < 120 {
 				nPre = len(payload)
-				if nPre > 400 {
-					nPre = 400
+				if nPre > 160 {
+					nPre = 160
 				}
 			}
 			if huge {
@@ -385,7 +385,7 @@ func init() {
 			for t := 0; t < nPre; t++ {
 				cut := r.Intn(len(payload))
 				if nPre == len(payload) {
-					cut = t
+					cut = t // every prefix of a small payload
 				}
 				mode := uint64(0)
 				o := randOpts(memMaxSeek)
